@@ -48,6 +48,15 @@ def gen_case(rng, tier, op=None):
                 case["rows"] = [rng.randint(-n, n - 1) for _ in range(m)]
             else:
                 case["rows"] = [rng.randint(-n, n - 1) for _ in range(min(m, 3))]
+            # the same index vector in every spelling a caller may use: list, tuple, ndarray, Vector, and — for an arithmetic
+            # progression — a range object (with a step, also a negative one)
+            case["rows_as"] = rng.choice(["list", "list", "tuple", "array", "vector", "range", "range"])
+            if case["rows_as"] == "range":
+                step = rng.choice([1, 2, 3, -1, -2])
+                a = rng.randint(-n, n - 1)
+                b = rng.randint(-n - 1, n) if op == "slice" else max(-n - 1, min(n, a + step * rng.randint(0, 3)))
+                case["range"] = [a, b, step]
+                case["rows"] = list(range(a, b, step))
     elif op in ("head", "tail"):
         case["n"] = rng.randint(0, n + 2)
     elif op == "drop_na":
@@ -127,10 +136,12 @@ def impl(case):
                 c = framegen.col(spec, nm)
                 kv[nm] = vecgen.make_array(c["kind"], [v])[0]
             out = df.filter(**kv) if op == "filter_kv" else df.filter_out(**kv)
-        elif op == "slice":
-            out = df.slice(rows=case["rows"])
-        elif op == "slice_off":
-            out = df.slice_off(rows=case["rows"])
+        elif op in ("slice", "slice_off"):
+            how = case.get("rows_as", "list")
+            rows = case["rows"]
+            arg = (tuple(rows) if how == "tuple" else np.array(rows, dtype=np.int64) if how == "array" else
+                   np.array(rows, dtype=np.int64).view(di.Vector) if how == "vector" else range(*case["range"]) if how == "range" else list(rows))
+            out = df.slice(rows=arg) if op == "slice" else df.slice_off(rows=arg)
         elif op == "head":
             out = df.head(case["n"])
         elif op == "tail":
